@@ -432,6 +432,21 @@ def guard_report(workdir):
             'guards_bsc_client_validate': l[0][0], 'guards_eth_client_validate': l[0][1], 'guards_genesis_and_ecrecover': l[0][2]}
 
 
+def site_report(workdir):
+    """how the regenerated panic-site inventory is covered on this run: hand rows / automatic (dominating guard) / moved"""
+    hdr = ('From Coq Require Import String List NArith.\nImport ListNotations.\nFrom Teleport Require Import Gen.PanicSitesGen '
+           'Proofs.HaltSites.\nLocal Open Scope N_scope.\n')
+    res = vlib.coq_eval_lists(workdir, 'sites.v', hdr, '', [
+        ('S', '[(N.of_nat (List.length panic_sites), N.of_nat (List.length uncovered_sites), stale_rows)]'),
+        ('C', '[coverage_counts]')])
+    a = vlib.parse_nat_tuples(res.get('S'), 3)
+    b = vlib.parse_nat_tuples(res.get('C'), 3)
+    if res['_rc'] != 0 or not a or not b:
+        return {'evaluated': False}
+    return {'evaluated': True, 'sites': a[0][0], 'uncovered': a[0][1], 'stale_rows': a[0][2],
+            'covered_by_row': b[0][0], 'covered_by_dominating_guard': b[0][1], 'covered_as_moved_or_renamed': b[0][2]}
+
+
 def check(run):
     run.proof_stage()
     if not run.quick():
@@ -455,6 +470,7 @@ def check(run):
 
     evals, distinct, dist, samples = coverage(results)
     run.coverage['regenerated_guards'] = guard_report(run.work)
+    run.coverage['panic_site_inventory'] = site_report(run.work)
     run.coverage.update(dict(
         evaluations=evals, cases=len(results), distinct_nontrivial=distinct,
         rule='one evaluation = one proposal / parameter change + BeginBlocker / genesis run on the real code (decode, stateless '
